@@ -616,7 +616,6 @@ class _AttrLen(PathAnalysis):
         for x in walk(stmt["e"]):
             if x[0] == "call" and x[1] in ("memcpy", "HDmemcpy") and x[3] and (mem_field(x[3][0]) or (0, 0)) == ("at_info", "data"):
                 u.add("M")
-                u.discard("L")
                 self.copies += 1
             elif x[0] == "asg" and x[1] == "=" and (mem_field(x[2]) or (0, 0)) == ("at_info", "len"):
                 u.add("L")
@@ -648,6 +647,6 @@ def rule_attr_value_and_count_together(ctx):
         if bad:
             ctx.violated("ATTRLEN", key, f.where(), "%s can copy a new value into an attribute's buffer and return successfully without storing the new element count: a shorter value keeps the old count" % f.name)
         else:
-            ctx.holds("ATTRLEN", key, f.where(), "every successful path that copies a value into the buffer stores the count after it", nontrivial=True)
+            ctx.holds("ATTRLEN", key, f.where(), "every successful path that copies a value into the buffer stores the count as well", nontrivial=True)
     ctx.floor("ATTRLEN", 1, n, "(routines that copy a value into a GR attribute record)")
     return n
